@@ -317,7 +317,7 @@ func ruleCbrtScaled(w *World, r *RuleResult) {
 
 func init() {
 	register(&Rule{ID: "C16.R7", Min: 4,
-		Text: "results that may be stored in one object are one object to math/big: for the math/big methods with several written arguments (QuoRem: z, r; DivMod: z, m and the divisor y read after m is written; GCD: z, x, y) the views passed for two parameters are the same *big.Int whenever the two BigInts are the same object — two headers over the same inline words clobber each other and the survivor depends on the write-back order, not on math/big's assignment order",
+		Text: "results that may be stored in one object are one object to math/big: for the math/big methods with several written arguments (QuoRem: z, r; DivMod: z, m; GCD: z, x, y) the views passed for two parameters are the same *big.Int whenever the two BigInts are the same object — two headers over the same inline words clobber each other and the survivor depends on the write-back order, not on math/big's assignment order; where math/big reads an operand again after writing a result (DivMod's divisor y after m) and the two are one object, the operand is passed as a private copy",
 		Run:  ruleOutputViewsShared})
 }
 
@@ -327,6 +327,13 @@ var multiWritten = map[string][][2]int{
 	"QuoRem": {{0, 3}},
 	"DivMod": {{0, 3}, {2, 3}, {0, 2}},
 	"GCD":    {{0, 1}, {0, 2}, {1, 2}, {2, 4}},
+}
+
+// privateCopy: pairs (operand, result) of a math/big method that reads the operand again after it has written
+// the result and does not protect itself: when the two BigInts are one object the operand's view must be a
+// private copy (math/big's DivMod copies y only when y is its receiver).
+var privateCopy = map[string][2]int{
+	"DivMod": {2, 3},
 }
 
 func ruleOutputViewsShared(w *World, r *RuleResult) {
@@ -346,7 +353,7 @@ func ruleOutputViewsShared(w *World, r *RuleResult) {
 				continue
 			}
 			pairs, hit := multiWritten[strings.TrimPrefix(cn, "(*math/big.Int).")]
-			if !hit || strings.TrimPrefix(cn, "(*math/big.Int).") != f.Name() {
+			if !hit || strings.TrimPrefix(cn, "(*math/big.Int).") != w.wrapperMethod(f) {
 				continue
 			}
 			args := call.Common().Args
@@ -357,54 +364,40 @@ func ruleOutputViewsShared(w *World, r *RuleResult) {
 				i, j := pr[0], pr[1]
 				n++
 				key := fmt.Sprintf("%s | %s and %s share one view when they are one object", name, f.Params[i].Name(), f.Params[j].Name())
-				// the assumption: parameters i and j are one (non-nil) object, every other parameter is a
-				// different object (the engine's convention for a pair under analysis)
-				pidx := func(v ssa.Value) int {
-					for k, q := range f.Params {
-						if ssa.Value(q) == v {
-							return k
-						}
-					}
-					return -1
-				}
-				inE := func(k int) bool { return k == i || k == j }
-				dead, deadE := deadUnder(f, func(bo *ssa.BinOp) (bool, bool) {
-					x, y := pidx(bo.X), pidx(bo.Y)
-					eq := false
-					switch {
-					case x >= 0 && y >= 0:
-						eq = x == y || (inE(x) && inE(y))
-					case x >= 0 && inE(x) && isNilConst(bo.Y), y >= 0 && inE(y) && isNilConst(bo.X):
-						eq = false
-					default:
-						return false, false
-					}
-					return eq == (bo.Op == token.EQL), true
-				})
-				canon := func(v ssa.Value) []ssa.Value {
-					var out []ssa.Value
-					var res func(v ssa.Value, d int)
-					res = func(v ssa.Value, d int) {
-						for _, l := range liveLeaves(v, dead, deadE, 0) {
-							if hc, isC := l.(*ssa.Call); isC && d < 4 {
-								hn := w.calleeName(hc)
-								ha := hc.Common().Args
-								if (hn == "(*BigInt).innerOrAlias" || hn == "(*BigInt).innerOrNilOrAlias") && len(ha) > 3 {
-									a, b := ssa.Value(f.Params[i]), ssa.Value(f.Params[j])
-									if (ha[0] == a && ha[2] == b) || (ha[0] == b && ha[2] == a) || ha[0] == ha[2] {
-										res(ha[3], d+1)
-										continue
-									}
-								}
-							}
-							out = append(out, l)
-						}
-					}
-					res(v, 0)
-					return out
-				}
+				canon := func(v ssa.Value) []ssa.Value { return w.viewUnderPair(f, i, j, v) }
 				ci, cj := canon(args[i]), canon(args[j])
 				same := len(ci) == 1 && len(cj) == 1 && ci[0] == cj[0]
+				if pc, isPC := privateCopy[w.wrapperMethod(f)]; isPC && pc == pr {
+					key = fmt.Sprintf("%s | %s is divided through a private copy when %s is stored in it", name, f.Params[i].Name(), f.Params[j].Name())
+					copied := len(ci) == 1
+					if copied {
+						switch lv := ci[0].(type) {
+						case *ssa.Call:
+							// yi = tmp.Set(yi)
+							copied = w.calleeName(lv) == "(*math/big.Int).Set"
+							if copied {
+								_, local := lv.Common().Args[0].(*ssa.Alloc)
+								copied = local
+							}
+						case *ssa.Alloc:
+							// tmp.Set(yi); yi = &tmp
+							copied = false
+							for _, sc := range w.callsTo(f, "(*math/big.Int).Set") {
+								if sc.Common().Args[0] == ssa.Value(lv) && (sc.Block() == call.Block() || reaches(sc.Block(), call.Block())) {
+									copied = true
+								}
+							}
+						default:
+							copied = false
+						}
+					}
+					if copied {
+						r.ok(key, w.instrPos(call), "under "+f.Params[i].Name()+" == "+f.Params[j].Name()+" the operand view is a copy made into a local big.Int", true)
+					} else {
+						r.bad(key, w.instrPos(call), fmt.Sprintf("when the modulus is stored in the divisor (z.DivMod(x, y, y)) big.Int.DivMod is given a view of y that the stored remainder overwrites (the same *big.Int, or a second header over the same words): math/big reads y again after it has written m — it protects y only against its receiver — so for x < 0 it corrects the remainder with the remainder itself: DivMod(-3·2^130, 2^64+5) gives m = 0 and a quotient off by two"))
+					}
+					continue
+				}
 				if same {
 					r.ok(key, w.instrPos(call), "under "+f.Params[i].Name()+" == "+f.Params[j].Name()+" both positions receive the same *big.Int", true)
 				} else {
@@ -595,4 +588,31 @@ func (w *World) writesOnlyWhenTrue(g, f *ssa.Function, c *ssa.Call, di int) bool
 		}
 	}
 	return true
+}
+
+// viewUnderPair: the *big.Int values that can be passed for v in the BigInt wrapper f when its parameters i and
+// j are one (non-nil) object and every other parameter is a different object: the live leaves of v's φs under
+// that assumption, with the alias helpers resolved to the partner's view.
+func (w *World) viewUnderPair(f *ssa.Function, i, j int, v ssa.Value) []ssa.Value {
+	dead, deadE := deadUnderPair(f, i, j)
+	var out []ssa.Value
+	var res func(v ssa.Value, d int)
+	res = func(v ssa.Value, d int) {
+		for _, l := range liveLeaves(v, dead, deadE, 0) {
+			if hc, isC := l.(*ssa.Call); isC && d < 4 {
+				hn := w.calleeName(hc)
+				ha := hc.Common().Args
+				if (hn == "(*BigInt).innerOrAlias" || hn == "(*BigInt).innerOrNilOrAlias") && len(ha) > 3 {
+					a, b := ssa.Value(f.Params[i]), ssa.Value(f.Params[j])
+					if (ha[0] == a && ha[2] == b) || (ha[0] == b && ha[2] == a) || ha[0] == ha[2] {
+						res(ha[3], d+1)
+						continue
+					}
+				}
+			}
+			out = append(out, l)
+		}
+	}
+	res(v, 0)
+	return out
 }
